@@ -33,7 +33,8 @@ SideOf(v, r) == CASE v = "recto" -> (IF r THEN "left" ELSE "right") [] v = "vers
 \* pg: the `page` property of the paragraph (0: auto, 1: the page named "n", 2: the page named "m"). A paragraph that names
 \* a page other than the one its previous sibling names starts a new page (CSS Paged Media 3, 6.2). As in WeasyPrint (and in
 \* the repository's TestPageNames4) `auto` stays on the page it is on: going from a named paragraph to an auto one is no break.
-Blk == [lines : 1..3, bb : {"auto", "avoid"}, ba : BVafter, bi : {"auto", "avoid"}, orphans : 1..2, widows : 1..2, pg : (IF Rich THEN 0..2 ELSE {0})]
+BVbefore == IF Rich THEN {"auto", "avoid", "page", "left", "right"} ELSE {"auto", "avoid", "page"}
+Blk == [lines : 1..3, bb : BVbefore, ba : BVafter, bi : {"auto", "avoid"}, orphans : 1..2, widows : 1..2, pg : (IF Rich THEN 0..2 ELSE {0})]
 
 RECURSIVE SumLines(_, _)
 SumLines(d, i) == IF i = 0 THEN 0 ELSE SumLines(d, i - 1) + d[i].lines
